@@ -196,6 +196,11 @@ pub fn main(args: &[String]) {
     cases.push(Case { structs: vec![vec![F::Prim("f64", 8, 8)]], discs: (0, 1), out: false });
     cases.push(Case { structs: vec![vec![F::Prim("u8", 1, 1)], vec![F::Struct(0)]], discs: (0, 1), out: false });
     for _ in 0..3 { cases.push(Case { structs: vec![vec![F::Prim("u32", 4, 4)]], discs: (0, 1), out: false }); }
+    // single-primitive wrapper structs nested away from offset 0, also a wrapper around a wrapper
+    for out in [true, false] {
+        cases.push(Case { structs: vec![vec![F::Prim("u16", 2, 2)], vec![F::Prim("u8", 1, 1), F::Struct(0), F::Struct(0)]], discs: (0, 1), out });
+        cases.push(Case { structs: vec![vec![F::Prim("i64", 8, 8)], vec![F::Struct(0)], vec![F::Prim("u32", 4, 4), F::Struct(1), F::Prim("u8", 1, 1), F::Struct(0)]], discs: (0, 1), out });
+    }
     for inner in [[("u8", 1, 1), ("u32", 4, 4)], [("u16", 2, 2), ("u16", 2, 2)], [("u8", 1, 1), ("u64", 8, 8)], [("i32", 4, 4), ("u8", 1, 1)]] {
         for k in 0..4usize {
             for pos in 0..=k {
@@ -311,7 +316,7 @@ pub fn main(args: &[String]) {
     // and the same through a real wasm32 module built by this sandbox's rustc (spec ABI)
     {
         let k = if thorough { 500 } else { 60 };
-        let pick: Vec<&Case> = idx.iter().filter(|i| **i >= n_fixed).take(k).chain(idx.iter().filter(|i| **i < n_fixed).take(if thorough { n_fixed } else { 32 })).map(|i| &cases[*i]).collect();
+        let pick: Vec<&Case> = idx.iter().filter(|i| **i >= n_fixed).take(k).chain(idx.iter().filter(|i| **i < n_fixed).take(if thorough { n_fixed } else { 36 })).map(|i| &cases[*i]).collect();
         crate::jsexec::run(&pick, a.seed, false, &mut rep);
         crate::jsexec::run(&pick, a.seed, true, &mut rep);
     }
